@@ -230,6 +230,8 @@ def check(run):
     remove_timer_rule(run)
     run.clause('R15 element references / iterators into member containers are not used after the call that invalidates them')
     engines.dangling_element_refs(run, [f for f in fx.repo_functions() if f.file.startswith(simlib.REPO_PREFIX)])
+    import p01 as _p01
+    _p01.accept_scratch_rule(run)
     run.floor('R15', 7)
     run.floor('R5', 7)
     run.floor('R7', 28)
@@ -254,7 +256,50 @@ def move_ctor_rules(run, classes):
             if it.get('field') and it.get('written') and is_node(it.get('e')):
                 srcs = {x.get('name') for x in walk(it['e']) if x['k'] == 'member' and x.get('mk') == 'field'}
                 run.check(it['field'] in srcs, 'R7', 'move-source', '%s(&&): %s from s.%s' % (cls, it['field'], it['field']), mv.loc(), '%s is initialised from %s, not from the source\'s %s' % (it['field'], sorted(srcs), it['field']), 'initialised from the same field of the source', nontrivial=False)
+    move_repoints_rule(run, classes)
 
+
+
+def move_repoints_rule(run, classes):
+    """The move constructors re-point the registry entry of a bound socket: rebind_*(this, own binding) is reached
+    whenever the NEW object holds a binding.  The decision must not be taken from a field of the moved-from object
+    that the constructor has already reset (read-after-reset: the test then sees the cleared value and never fires, the
+    registry keeps pointing at the moved-from object, and its destruction leaves a dangling entry)."""
+    fx = run.fx
+    run.clause('R7 move re-points the registry: rebind is guarded by the new object\'s own binding; no field of the moved-from object is read after the constructor reset it')
+    for cls, spec in classes:
+        mv = [f for f in fx.fn(cls + '::socket') if '&&' in f.sig][0]
+        run.touch(mv)
+        reb = [c for c in mv.calls() if (q.callee_name(c) or '').split('::')[-1] in ('rebind_socket', 'rebind_udp_socket')]
+        if not reb:
+            run.violation('R7', 'move-repoints', '%s(&&)' % cls, mv.loc(), 'the move constructor no longer re-points the registry entry (rebind_*): the registry keeps the address of the moved-from object')
+            continue
+        resets, reads = {}, []
+        for a in q.field_accesses(mv):
+            root = q.access_root(a.node)
+            if not (is_node(root) and root['k'] == 'ref' and root.get('dk') == 'param'):
+                continue
+            fld = a.field.split('::')[-1]
+            if a.kind == 'assign' or (a.kind == 'method' and a.method in ('reset', 'clear')):
+                resets.setdefault(fld, []).append(a.site)
+            elif a.kind in ('read', 'arg', 'method'):
+                reads.append((fld, a))
+        nbad = 0
+        for fld, a in reads:
+            ev, _ = q.reaching_events(mv, resets.get(fld, []), a.node)
+            if ev:
+                nbad += 1
+                run.violation('R7', 'move-read-after-reset', '%s(&&): s.%s' % (cls, fld), mv.loc(a.node),
+                              'the move constructor reads s.%s after resetting it at line %s: the value seen is the cleared one, not the state being transferred (a bound socket is treated as unbound, so the registry is not re-pointed and keeps the address of the moved-from object)' % (fld, ev[0].get('l')))
+        if not nbad:
+            run.ok('R7', 'move-read-after-reset', '%s(&&)' % cls, mv.loc(), 'no field of the source is read after its reset (%d resets, %d reads in the body)' % (sum(len(v) for v in resets.values()), len(reads)))
+        for c in reb:
+            g = q.guards_at(mv, c)
+            own = [(q.render(mv, a_), p) for a_, p in g]
+            src_reads = [x for a_, p in g for x in walk(a_) if x['k'] == 'ref' and x.get('dk') == 'param']
+            ok = bool(own) and any('m_bound_to' in t for t, p in own)    # a test of the source's binding BEFORE its reset is equivalent (read-after-reset is decided above)
+            run.check(ok, 'R7', 'move-repoints', '%s(&&): %s' % (cls, (q.callee_name(c) or '').split('::')[-1]), mv.loc(c),
+                      'the re-pointing of the registry is guarded by %s, not by the socket holding a binding (m_bound_to != endpoint())' % own, 'guarded by the binding being transferred')
 
 
 def forwarder_rules(run, classes):
